@@ -113,3 +113,31 @@ pub mod codec {
         FrameType::from_bytes(buf)
     }
 }
+
+/// Constructor for the crate-private rate-limited reader (property C09).
+#[cfg(feature = "server")]
+pub mod ratelimit {
+    use std::sync::Arc;
+
+    use tokio::{io::AsyncRead, sync::watch};
+
+    use crate::server::{
+        ClientRateLimit, Metrics,
+        streams::{InvalidBucketConfig, RateLimited},
+    };
+
+    /// `RateLimited::from_watcher(io, watcher, metrics)`, as used by the relay server for every
+    /// accepted connection.
+    ///
+    /// Returns the reader and its `limited_watcher()` (counts rate-limited reads).
+    pub fn rate_limited_reader<S: AsyncRead + Unpin + Send + 'static>(
+        io: S,
+        rate_limit_watcher: watch::Receiver<Option<ClientRateLimit>>,
+        metrics: Arc<Metrics>,
+    ) -> Result<(impl AsyncRead + Unpin + Send + 'static, watch::Receiver<u64>), InvalidBucketConfig>
+    {
+        let reader = RateLimited::from_watcher(io, rate_limit_watcher, metrics)?;
+        let limited = reader.limited_watcher();
+        Ok((reader, limited))
+    }
+}
